@@ -445,9 +445,9 @@ prop('C18', obligations=['Props/C18.vo', 'Tie/BuiltinsTie.vo'],
      suites=[dict(name='numfun', project=proj_eval_result, definitive=True, equiv=equiv_sqrt, what='numeric builtin / bit operator result differs from the proved model')],
      rule='34 hand-picked arguments (ties, signs, zero, near-integers) x 13 builtins; random arguments of 1-15 digits and exponent -15..15; '
           'max/min over lists of length 1..6; bit operators over integer pairs below 2^53 against two\'s-complement; sqrt against the '
-          'proved correctly rounded root (one unit of the 16th digit allowed); exp/ln/log against float64 math where well-conditioned '
-          '(13 digits) and through the inverse laws; every text of up to 4 numeral parts through toFloat / toInt',
-     trust=EV_TRUST + ['exp, ln, log are not modelled: judged pointwise against float64 math and the inverse laws only',
+          'proved correctly rounded root (one unit of the 16th digit allowed); exp/ln/log against 300-bit references computed from the decimal '
+          'argument (relative error <= 2e-15), float64 math and the inverse laws; every text of up to 4 numeral parts through toFloat / toInt',
+     trust=EV_TRUST + ['exp, ln, log are not modelled: judged pointwise against 300-bit references (math/big series), float64 math and the inverse laws',
                        'sqrt: the decimal library rounds twice; a difference of one unit in the 16th digit from the proved root is accepted'])
 prop('C19', obligations=['Props/C19.vo', 'Tie/BuiltinsTie.vo'],
      suites=[dict(name='datefun', project=proj_eval_result, definitive=True, what='date builtin result differs from the proved calendar model')],
